@@ -50,6 +50,12 @@ def handleLine (tb : Tables) (line : String) : String :=
   match splitLine line with
   | none => "bad-op"
   | some (prop, c, impl) =>
+    -- whole-walk cases (`(walk …)`) share C01's model and oracle whichever property's harness produced them
+    let prop := match c, prop with
+      | .node "walk" _, "C05" => "C01"
+      | .node "walk" _, "C09" => "C01"
+      | .node "walk" _, "C11" => "C01"
+      | _, p => p
     match prop with
     | "C01" => C01.handle tb c impl
     | "C03" => C03.handle tb c impl
